@@ -196,10 +196,20 @@ var xUnits = []xUnit{
 		Oracles: map[string]xOracle{"s.genRequestID()": {"gen_request_id", "Z"}, "tools.ByteToInt8(buf)": {"sbuffer", "list Z"}}},
 	{Name: "tr_TarsInvoke_timeout", Dir: "tars", Func: "ServantProxy.TarsInvoke", Recv: true,
 		Writer: &xWriter{Type: "list Z", Prims: map[string]xPrim{"context.WithTimeout": {"go_arm", []int{1}}}},
-		From: "timeout := time.Duration(s.timeout) * time.Millisecond", To: "if dl, ok := ctx.Deadline(); ok {", Outs: []string{"timeout", "req"},
+		From:   "timeout := time.Duration(s.timeout) * time.Millisecond", To: "if dl, ok := ctx.Deadline(); ok {", Outs: []string{"timeout", "req"},
 		Funcs:   map[string]xOracle{"current.GetClientTimeout": {"client_timeout", "bool * Z * bool"}},
 		Oracles: map[string]xOracle{"ctx.Deadline()": {"has_deadline", "bool"}, "time.Until(dl)": {"until_deadline", "Z"}},
 		Ignore:  []string{"var cancel context.CancelFunc", "defer cancel()"}},
+	// C08 / C09: AdapterProxy.Recv after the decoding: push, one-way drop, lookup by the packet's id, hand-over racing with the ReadTimeout timer
+	{Name: "tr_adapter_Recv", Dir: "tars", Func: "AdapterProxy.Recv",
+		From: "if packet.IRequestId == 0 {", To: "if ok {", After: []string{},
+		Writer: &xWriter{Type: "list (Z * Z)", Prims: map[string]xPrim{"c.onPush": {"go_tag 1 0", []int{}}, "chan<-": {"go_tag 2 0", []int{}},
+			"rtimer.After": {"go_tag 3", []int{0}}}},
+		Oracles: map[string]xOracle{"packet.IRequestId": {"pkt_id", "Z"}, "packet.CPacketType": {"pkt_type", "Z"}, "c.conf.ReadTimeout": {"read_timeout", "Z"},
+			"c.resp.Load(packet.IRequestId)": {"found", "bool"}, "select": {"select_", "Z"}},
+		Ignore: []string{"ch := chIF.(chan *requestf.ResponsePacket)",
+			"TLOG.Errorf(\"response timeout, write channel error, now time :%v, RequestId:%v\",\n\ttime.Now().UnixNano()/1e6, packet.IRequestId)",
+			"TLOG.Errorf(\"response timeout, req has been drop, now time :%v, RequestId:%v\",\n\ttime.Now().UnixNano()/1e6, packet.IRequestId)"}},
 	{Name: "tr_cli_recv_chunk", Dir: "tars/transport", Func: "connection.recv", Deep: true, Fuel: true,
 		From: "currBuffer = append(currBuffer, buffer[:n]...)", To: "for {", Outs: []string{"currBuffer"}, After: []string{}, Fresh: []string{"currBuffer"},
 		Writer: &xWriter{Type: "list (list N)", Prims: map[string]xPrim{"c.client.protocol.Recv": {"go_deliver", []int{0}}}},
@@ -301,7 +311,7 @@ func newXLoader(root string) *xLoader {
 }
 
 func (l *xLoader) Import(path string) (*types.Package, error) {
-	if path == "encoding/binary" || path == "math" || path == "bytes" || path == "time" || path == "io" || path == "sync/atomic" || path == "sort" || path == "context" {
+	if path == "encoding/binary" || path == "math" || path == "bytes" || path == "time" || path == "io" || path == "sync/atomic" || path == "sort" || path == "context" || path == "sync" {
 		return l.std.Import(path)
 	}
 	if l.mod != "" && strings.HasPrefix(path, l.mod+"/") {
